@@ -23,6 +23,16 @@ ASSUME = ["base pickles are clean (exactly one value on the VM stack at STOP); s
           "the rewritten pickle is unframed; results and sink calls are compared through digests"]
 
 
+def _fnk():
+    import marshal
+    from ..asm import const_op
+    return {"def": const_op(FN), "name": const_op("verif_fn"), "code": const_op(marshal.dumps(compile(FN, "<string>", "exec"))),
+            "args": [const_op(7), const_op("x")]}
+
+
+FNK = _fnk()
+
+
 def dg(x):
     return hashlib.sha1(json.dumps(x, sort_keys=True, default=str).encode()).hexdigest()[:12]
 
@@ -103,7 +113,7 @@ def run(ctx):
     items, recs = [], []
     for ops, data, prof in bases:
         for mode in MODES:
-            rec = {"id": len(recs), "base": ops, "mode": mode, "prof": prof, "base_hex": data.hex(), "refused": False,
+            rec = {"id": len(recs), "base": ops, "mode": mode, "prof": prof, "fnk": FNK, "base_hex": data.hex(), "refused": False,
                    "new": [], "new_hex": "", "sev": -1, "keeps": mode in KEEPS,
                    "added": 0 if mode.startswith("magic") else 1, "inj": dg(["injected", ["tuple", ["str", "'payload'"]], ["dict"]])
                    if not mode.startswith(("fn_", "num_")) else dg(["injected", ["tuple", ["str", "'1e3'"], ["int", "8080"], ["bytes", "b'12'"], ["str", "'payload'"]], ["dict"]])
@@ -115,6 +125,10 @@ def run(ctx):
                 nb = p.dumps()
                 rec["new_hex"] = nb.hex()
                 rec["new"] = disassemble(nb)
+                if mode == "fn_compiled":       # marshal output is not reproducible byte for byte (reference flags): take the
+                    code = [o for o in rec["new"][len(ops) - 1:] if o["o"] == "CONST" and o.get("ty") == "bytes"]   # constant as emitted
+                    if code:
+                        rec["fnk"] = dict(FNK, code=code[0])
                 try:
                     rec["sev"] = sevnum(an, check_safety(fk.Pickled.load(nb)).severity)
                 except Exception:  # noqa: BLE001 - analysis failing on the rewritten pickle: not LIKELY_SAFE
